@@ -1,7 +1,9 @@
 (** Scope.v — executable model of goatcore's scope kernel (app/scope/scope.go, child.go,
     contextscope/{context,isolated}.go, eventscope/{event,child}.go) AS IT IS after the fixes
-    F19 (Stop tests and closes under the mutex) and F20 (NewChild remembers whether the parent
-    accepted the registration).  Shared by C11 and C12.  Definitions only.
+    F19 (Stop tests and closes under the mutex), F20 (NewChild remembers whether the parent
+    accepted the registration), b43446f (closed is set after the wait), 59678b1 (Err/Errors under the
+    mutex) and 9241715 (mutex+cond task counter: a refused decrement leaves the counter unchanged and
+    panics; [s_wg] is that counter).  Shared by C11 and C12.  Definitions only.
 
     Concurrency convention (DESIGN §3): state + threads + executable [step]; every Go statement
     that touches shared memory is one atomic step; lock-protected regions in which nothing blocks
